@@ -371,7 +371,7 @@ fn multi_scenario(c: &MultiCase, mode: OperationMode, out: Arc<Mutex<Vec<Row>>>)
     let mut ts = c.start; let mut marks = vec![];
     for (i, ev) in c.events.iter().enumerate() {
         if i > 0 { ts += ev.gap; }
-        if ev.advance_ms > 0 { kolibrie_verif_rt::clock::advance(ev.advance_ms * 1_000_000); kolibrie_verif_rt::thread::yield_now(); }
+        if ev.advance_ms > 0 { kolibrie_verif_rt::clock::advance(ev.advance_ms * 1_000_000); kolibrie_verif_rt::thread::sleep(std::time::Duration::ZERO); }
         let w = ev.stream % n;
         let f: Fact = (ev.s.clone(), ev.p.clone(), ev.o.clone());
         let triples = e.parse_data(&format!("<{}> <{}> <{}> .", f.0, f.1, f.2));
@@ -386,7 +386,7 @@ fn multi_scenario(c: &MultiCase, mode: OperationMode, out: Arc<Mutex<Vec<Row>>>)
         marks.push(out.lock().unwrap().len());
     }
     // let pending coordinator deadlines expire, then close everything
-    kolibrie_verif_rt::clock::advance(3_600_000_000_000); kolibrie_verif_rt::thread::yield_now();
+    kolibrie_verif_rt::clock::advance(3_600_000_000_000); kolibrie_verif_rt::thread::sleep(std::time::Duration::ZERO);
     drop(e);
     kolibrie_verif_rt::clock::uninstall();
     Ok(MultiOut { marks, contents })
